@@ -201,10 +201,11 @@ def first_diff(a: Any, b: Any, path: str = "") -> str | None:
 
 class RT:
     """outcome of one round trip"""
-    __slots__ = ("ok", "stage", "detail", "text1", "text2")
+    __slots__ = ("ok", "stage", "detail", "text1", "text2", "m2")
 
-    def __init__(self, ok: bool, stage: str = "", detail: str = "", text1: str = "", text2: str = ""):
+    def __init__(self, ok: bool, stage: str = "", detail: str = "", text1: str = "", text2: str = "", m2=None):
         self.ok, self.stage, self.detail, self.text1, self.text2 = ok, stage, detail, text1, text2
+        self.m2 = m2  # the re-parsed module (when the text parsed)
 
 
 def roundtrip(module, *, check_clone: bool = True, with_metadata: bool = False) -> RT:
@@ -224,10 +225,10 @@ def roundtrip(module, *, check_clone: bool = True, with_metadata: bool = False) 
         return RT(False, "reparse", f"{core.exc_name(e)}: {str(e)[:300]}", t1)
     c1 = canon_op(m2)
     if c0 != c1:
-        return RT(False, "canonical", first_diff(c0, c1) or "canonical forms differ", t1)
+        return RT(False, "canonical", first_diff(c0, c1) or "canonical forms differ", t1, m2=m2)
     t2 = print_generic(m2, with_metadata)
     if t2 != t1:
-        return RT(False, "reprint", "text printed from the re-parsed IR differs", t1, t2)
+        return RT(False, "reprint", "text printed from the re-parsed IR differs", t1, t2, m2=m2)
     if check_clone:
         try:
             cl = module.clone()
@@ -236,8 +237,8 @@ def roundtrip(module, *, check_clone: bool = True, with_metadata: bool = False) 
         if cl is not None:
             tc = print_generic(cl, with_metadata)
             if tc != t1:
-                return RT(False, "print-clone", "printing the clone gives different text", t1, tc)
-    return RT(True, text1=t1)
+                return RT(False, "print-clone", "printing the clone gives different text", t1, tc, m2=m2)
+    return RT(True, text1=t1, m2=m2)
 
 
 def text_diff_line(a: str, b: str) -> str:
